@@ -488,7 +488,36 @@ def check_c12(tier):
                           "schedule": [], "post": []})
             info[cid] = ("imports", {"edges": eff, "kind": kind}, one)
             graph_info[cid] = (eff, len(setup))
+    # ---- (1b) the same import graphs ON DISK: the real workspace scan (phase 1 + the import fixpoint of
+    # scan_imported_fixture_modules), with the first helper optionally registered as an entry-point plugin (plugin status
+    # propagates along star imports / pytest_plugins, also around cycles); and a server that analysed only conftest and
+    # test file, so that every query meets imported modules that exist on disk but were never analysed
+    import shutil
+    disk_base = os.path.join(C.BUILD, "ws", "c12-%d" % os.getpid())
+    shutil.rmtree(disk_base, ignore_errors=True)
+    disk_graphs = graphs[:: max(1, len(graphs) // (70 if tier == "quick" else 700))]
+    for gi, (uni0, files, eff, kind) in enumerate(disk_graphs):
+        root = os.path.join(disk_base, "g%d" % gi)
+        uni = R.Universe({sl: pth.replace("/vws/G", root + "/G") for sl, pth in uni0.paths.items()})
+        rendered = {sl: R.render_checked(uni, sl, m) for sl, m in files.items()}
+        os.makedirs(root + "/G", exist_ok=True)
+        for sl, r in rendered.items():
+            with open(uni.paths[sl], "w") as fh:
+                fh.write(r.text)
+        texts = {uni.paths[sl]: r.text for sl, r in rendered.items()}
+        q = query_ops_for(texts, ["fa", "fb", "fc"])
+        variants = [("scan", [{"op": "scan", "root": root + "/G"}]),
+                    ("scan_plugin", [{"op": "mark_plugin", "path": uni.paths["ha"]}, {"op": "scan", "root": root + "/G"}]),
+                    ("unscanned_modules", [{"op": "analyze", "path": uni.paths[sl], "text": rendered[sl].text} for sl in ("c", "t")])]
+        for vname, setup in variants:
+            cid = len(cases)
+            cases.append({"id": cid, "one_shard": gi % 2 == 0, "mode": "trace", "pre": [],
+                          "threads": [setup + [{"op": "imported", "path": uni.paths["c"]}] + q], "schedule": [], "post": []})
+            info[cid] = ("disk_" + vname, {"edges": eff, "kind": kind}, gi % 2 == 0)
+            if vname != "unscanned_modules":
+                graph_info[cid] = (eff, len(setup))
     res = run_conc(cases)
+    shutil.rmtree(disk_base, ignore_errors=True)
     for k in ("__hang__", "__crash__"):
         if k in res:
             V.violation(res.pop(k), "an operation crashed the process (stack overflow / abort) or did not terminate")
